@@ -36,7 +36,7 @@ class ThreadAbort(BaseException):
 
 
 class TCB:
-    __slots__ = ("idx", "name", "gate", "state", "wake", "deadline", "timed_out", "abort_exc", "real_ident", "what")
+    __slots__ = ("idx", "name", "gate", "state", "wake", "deadline", "timed_out", "abort_exc", "real_ident", "what", "poll_stays")
 
     def __init__(self, idx: int, name: str):
         self.idx = idx
@@ -49,6 +49,7 @@ class TCB:
         self.timed_out = False
         self.abort_exc: BaseException | None = None
         self.real_ident = 0
+        self.poll_stays = 0
         self.what = ""
 
 
@@ -108,6 +109,8 @@ class SimLock:
 
 
 class Scheduler:
+    MAX_POLL_STAYS = 64
+
     def __init__(self, world: World, *, switch_den: int = 3, preempt_files: tuple[str, ...] = (), max_preemptions: int = 0):
         self.world = world
         self.threads: list[TCB] = []
@@ -290,7 +293,16 @@ class Scheduler:
         # order: me first, then the others by index => choice 0 = keep running
         others = [t for t in run if t is not me]
         if force:
-            nxt = others[self.world.choose("sched.poll", len(others))]
+            # same odds as any other scheduling point that the polling thread keeps the processor for one more round (a real OS
+            # does not pre-empt at once: needed for schedules in which e.g. an event loop runs many iterations before a runnable
+            # thread gets its turn); bounded, so that a spinning thread cannot starve the others for ever, and virtual time
+            # never creeps here
+            k = self.world.choose("sched.poll", len(others) + self.switch_den)
+            if k < self.switch_den and me.poll_stays < self.MAX_POLL_STAYS:
+                me.poll_stays += 1
+                return True
+            me.poll_stays = 0
+            nxt = others[(k - self.switch_den) % len(others)] if k >= self.switch_den else others[0]
             self._switch(nxt)
             return True
         k = self.world.choose("sched." + tag, len(others) * 1 + self.switch_den)
